@@ -38,6 +38,22 @@ Definition secs2beats (m : tmap) (s : Q) : Q := (s - tm_bsecs m) * tm_tempo m + 
 Definition beats2secs (m : tmap) (b : Q) : Q := (b - tm_bbeats m) * / tm_tempo m + tm_bsecs m.
 Definition tm_id : tmap := mkTM 1 0 0.
 
+(* the tempo / beat changing entry points of TempoClock, line by line.  [a] is the anchor: the logical
+   time of the caller for [tempo] and [beats] (main.current_tt._seconds: the physical present for a
+   thread that is not a clock thread), the physical present (main.elapsed_time()) for [etempo]. *)
+Inductive retime_kind := RTempo | REtempo | RBeats.
+Definition retime (k : retime_kind) (m : tmap) (a v : Q) : tmap :=
+  match k with
+  | RTempo =>    (* beats = self.beats; _base_seconds = beats2secs(beats); _base_beats = beats; _tempo = v *)
+      let b := secs2beats m a in mkTM v (beats2secs m b) b
+  | REtempo =>   (* seconds = elapsed_time(); _base_beats = secs2beats(seconds); _base_seconds = seconds; _tempo = v *)
+      mkTM v a (secs2beats m a)
+  | RBeats =>    (* _base_seconds = current_tt._seconds; _base_beats = v  (tempo unchanged) *)
+      mkTM (tm_tempo m) a v
+  end.
+Definition tmap_eqb (x y : tmap) : bool :=
+  Qeq_bool (tm_tempo x) (tm_tempo y) && Qeq_bool (tm_bsecs x) (tm_bsecs y) && Qeq_bool (tm_bbeats x) (tm_bbeats y).
+
 (* ---- queue helpers (TaskQ.spec operations) ------------------------------------------ *)
 Definition itime (x : item) : Q := fst (fst x).
 Definition iseq (x : item) : nat := snd (fst x).
@@ -454,6 +470,19 @@ Fixpoint mon_sched_base (m : tmap) (evs : list event) : bool :=
       | _ => false
       end
   | _ :: r => mon_sched_base m r
+  end.
+
+(* every tempo / beats change in the trace produced the map that the entry point's definition gives
+   from the map in force, the anchor and the argument (annotations in order of the ETempo events) *)
+Fixpoint mon_retime (m : tmap) (anns : list (retime_kind * Q * Q)) (evs : list event) : bool :=
+  match evs with
+  | [] => match anns with [] => true | _ => false end
+  | ETempo m' :: r =>
+      match anns with
+      | (k, a, v) :: anns' => tmap_eqb m' (retime k m a v) && mon_retime m' anns' r
+      | [] => false
+      end
+  | _ :: r => mon_retime m anns r
   end.
 
 (* no_oversleep on a trace: replays [step] and checks the invariant in every state
